@@ -22,6 +22,10 @@ func c19Years(c *ctx) {
 					continue
 				}
 				row := obj{"c": sol(s), "ymd": codepoints(s.ToYmd()), "hms": codepoints(s.ToYmdHms()), "str": codepoints(s.String())}
+				// a stepped date prints like a constructed one: back to hour 0 of the day before (hour + n = -24)
+				if !(y == 1 && m == 1 && d == 1) {
+					try(func() { row["nh"] = codepoints(s.NextHour(-(h + 24)).ToYmdHms()) })
+				}
 				pp, _ := try(func() {
 					l := s.GetLunar()
 					row["l"] = []int{l.GetYear(), l.GetMonth(), l.GetDay()}
